@@ -34,7 +34,7 @@ import (
 )
 
 func init() {
-	props["C17"] = &prop{gen: genC17, eval: evalC17, timeout: 120 * time.Second}
+	props["C17"] = &prop{gen: genC17, eval: evalC17, timeout: 120 * time.Second, par: func(string) bool { return true }}
 }
 
 // ---- type checking against the working tree ----
